@@ -17,6 +17,17 @@ CHECKS = {
         design_ref="DESIGN.md §5 C19",
         note="Trusted: TLC, the JSON serialisation of results (sorted lists of ints). Graphs are simple digraphs whose vertices are all keys.",
     ),
+    "C16": dict(
+        category="model_checking",
+        technique="TLA+ state machine of the symbol table (HContext); TLC state-graph exploration emits one history per model transition; "
+                  "histories replayed on the real Context; TLC trace validation of every recorded query (HContextTrace)",
+        text="TLC explores the model's state graph over small operation alphabets (every transition of every distinct table state) and random "
+             "long histories over the full alphabet, checking the design invariants; each history is executed on a real Context with real AST "
+             "declarations and TLC replays it as a behaviour of HContext, comparing get_decl / current / enclosing / global / reverse queries "
+             "after the steps. History-quantified, which no unit test reaches.",
+        design_ref="DESIGN.md §5 C16",
+        note="Trusted: TLC, the dumb serialiser of query results. Assumes a name is not shared between function/variable/class in one namespace.",
+    ),
 }
 
 NOT_YET = "check not built yet (work in progress in this session; see DESIGN.md §10 for the order of work)"
